@@ -11,6 +11,17 @@ theorem scan_coverage : 100 ≤ packagesScanned := by decide
 theorem allowances_used : allowedOwners.all (fun (pkg, owner, _) => facts.any fun f => f.pkg == pkg && f.owner == owner) = true := by
   decide +kernel
 
+/-- every allow-listed package-level variable still exists as a fact -/
+theorem global_allowances_used :
+    allowedGlobals.all (fun (pkg, v, _) => facts.any fun f => isGlobalKind f.kind && f.pkg == pkg && f.owner == v) = true := by
+  decide +kernel
+
+/-- every allow-listed in-place write / hand-out of a container field still exists as a fact -/
+theorem field_allowances_used :
+    allowedFieldFacts.all (fun (pkg, fn, kind, what, _) =>
+      facts.any fun f => f.pkg == pkg && f.fn == fn && f.kind == kind && f.what == what) = true := by
+  decide +kernel
+
 end TinkVerif.Gen.MutFacts
 
 section AxiomAudit
@@ -18,4 +29,6 @@ open TinkVerif.Gen.MutFacts
 #print axioms facts_classified
 #print axioms scan_coverage
 #print axioms allowances_used
+#print axioms global_allowances_used
+#print axioms field_allowances_used
 end AxiomAudit
